@@ -130,7 +130,7 @@ def pdrv_conditions(select="all", k_all=1, k_tags=2, stop_too=True, T1=120, T2=4
             continue
         seen_seq.add(tuple(seq))
         tagp = key[1] == "tag-pending"
-        if select == "tags" and not tagp:
+        if select == "none" or (select == "tags" and not tagp):
             continue
         k = k_all
         if tagp:
